@@ -64,7 +64,7 @@ func run(c *core.Ctx) int {
 		recs[k] = append(recs[k], cr)
 	}
 	// fixed minimal histories of the known hazard (one per funcref channel and engine): a sensitivity control in every run
-	for _, ch := range []string{"private-table", "global", "table-grow", "shared-table", "imported-global", "lookup", "in-flight"} {
+	for _, ch := range []string{"private-table", "global", "table-grow", "shared-table", "imported-global", "lookup", "in-flight", "failed-instantiation", "failed-instantiation-exit"} {
 		for _, comp := range []bool{false, true} {
 			cr := caseRec{Seed: 1, Manual: ch, Compiler: comp}
 			lists[0] = append(lists[0], core.J(cr))
@@ -488,6 +488,16 @@ func (d *decider) decide(cr caseRec, raw json.RawMessage, rs [4]*core.CaseResult
 			}
 			tp, xp := strings.Split(T.Obs[s], obsSep), strings.Split(X.Obs[s], obsSep)
 			if op.Kind == "inst" {
+				if tp[0] != xp[0] && h.Mods[op.Slot].Fail > 0 {
+					// the twin's failing instantiation wrote the shared table, the real one failed earlier (or vice versa)
+					if o := g.tableOwner(op.Inst); o >= 0 {
+						for j := range g.meta {
+							if g.tableOwner(j) == o {
+								desync[j] = true
+							}
+						}
+					}
+				}
 				if tp[0] != xp[0] {
 					c.Count("instantiate_outcome_differs_from_twin_after_closes", 1)
 					c.Distinct("instantiate_failures_after_close", obsClass(xp[0]))
